@@ -175,6 +175,7 @@ func (c *compiler) compileFile(astFile *ast.File, pkg *pkg.Package) *file {
 						flow: flow,
 					},
 				)
+				c.rejectNestedDirectives(n)
 
 			case fn.Name() == "Parallel":
 				parallel := c.compileParallel(astFile, n)
@@ -188,6 +189,7 @@ func (c *compiler) compileFile(astFile *ast.File, pkg *pkg.Package) *file {
 						parallel: parallel,
 					},
 				)
+				c.rejectNestedDirectives(n)
 
 			case IsCodegenDirective(fn.Name()):
 				c.errf(c.nodePosition(n), "unexpected code generation directive %q: "+"only cff.Flow or cff.Parallel may be called at the top-level", fn.Name())
@@ -221,6 +223,35 @@ func (c *compiler) compileFile(astFile *ast.File, pkg *pkg.Package) *file {
 	}
 
 	return &file
+}
+
+// rejectNestedDirectives reports cff.Flow and cff.Parallel calls that appear
+// inside the arguments of the given directive, for example in the function
+// literal of a task. The arguments of a directive are copied into the
+// generated code as they are, so such a call would be left unprocessed and
+// panic at run time.
+func (c *compiler) rejectNestedDirectives(directive *ast.CallExpr) {
+	for _, arg := range directive.Args {
+		astWalk(arg, func(n ast.Node) bool {
+			call, ok := n.(*ast.CallExpr)
+			if !ok {
+				return true
+			}
+			sel, ok := call.Fun.(*ast.SelectorExpr)
+			if !ok {
+				return true
+			}
+			fn, ok := c.info.Uses[sel.Sel]
+			if !ok || !isPackagePathEquivalent(fn.Pkg(), cffImportPath) {
+				return true
+			}
+			if fn.Name() == "Flow" || fn.Name() == "Parallel" {
+				c.errf(c.nodePosition(call), "cff.%v cannot be used inside the arguments of another cff.Flow or cff.Parallel: move it into a separate function", fn.Name())
+				return false
+			}
+			return true
+		})
+	}
 }
 
 type flow struct {
